@@ -9,7 +9,7 @@ from bv.props.c12 import leaves
 ID = "C13"
 LEVEL = "exploration"
 RULE = ("(a) histories: generated families with shared sub-packet classes, user defaults (list defaults, prototypes, optional defaults), "
-        "selector references with packet options, regex delimiters kept and not kept (incl. multi-string), Bits, sequences, generic "
+        "selector references with packet options, regex delimiters kept and not kept (incl. multi-string, also on optional fields), Bits, sequences, generic "
         "and generated code x generated histories of <=40 operations over several live packets of the root and of sub-packet classes: "
         "construct (defaults / keywords), unpack, assign a leaf at any depth (nested packets and lists mutated in place), append to a "
         "list, pack, pack twice, drop. After EVERY step each live packet must read back as the harness' own per-packet value tree, "
